@@ -126,22 +126,26 @@ func (o c15Op) coq() string {
 		return fmt.Sprintf("OAdvance %s", z(o.D))
 	case "keys":
 		return "OKeys"
+	case "stop":
+		return "OStop"
 	}
 	panic("c15: bad op " + o.Op)
 }
 
 // result of one operation as observed on the implementation
 type c15Res struct {
-	Kind string  `json:"r"` // unit | panic | hit | miss | keys
-	V    int64   `json:"v,omitempty"`
-	Keys []int64 `json:"keys,omitempty"`
+	Kind string `json:"r"` // unit | panic | hit | miss | keys | noreturn (a Stop that did not come back in 10 s)
+	// a "stop" operation that returned while the cleaner goroutine had not exited
+	Alive bool    `json:"cleaner_alive,omitempty"`
+	V     int64   `json:"v,omitempty"`
+	Keys  []int64 `json:"keys,omitempty"`
 }
 
 func (r c15Res) coq() string {
 	switch r.Kind {
 	case "unit":
 		return "RUnit"
-	case "panic":
+	case "panic", "noreturn": // noreturn: no result at all; any res other than RUnit fails the oracle for OStop
 		return "RPanic"
 	case "hit":
 		return fmt.Sprintf("RGet (Some %s)", z(r.V))
@@ -191,6 +195,19 @@ func apply(c *ttlcache.Cache[int64], clk *clocktesting.FakeClock, ks int, o c15O
 		c.Reset()
 	case "adv":
 		clk.Step(time.Duration(o.D))
+	case "stop":
+		// Stop in the middle of a history: the cache stays in use afterwards
+		done := make(chan struct{})
+		go func() {
+			c.Stop()
+			close(done)
+		}()
+		select {
+		case <-done:
+		case <-time.After(10 * time.Second):
+			return c15Res{Kind: "noreturn"}
+		}
+		return c15Res{Kind: "unit", Alive: !c.VerifCleanerExited()}
 	case "keys":
 		stored := c.VerifKeys()
 		out := make([]int64, len(stored))
@@ -231,6 +248,16 @@ func stop(c *ttlcache.Cache[int64]) (returned, exited bool) {
 		return false, exited
 	}
 	return returned, exited
+}
+
+// anyAlive: some Stop in the middle of the history returned with the cleaner goroutine still alive
+func anyAlive(obs []c15Res) bool {
+	for _, r := range obs {
+		if r.Alive {
+			return true
+		}
+	}
+	return false
 }
 
 func coqOps(ops []c15Op) string {
@@ -385,6 +412,29 @@ func count(ctx *core.Ctx, in c15Input, ops []c15Op, obs []c15Res) (hits, misses 
 
 // ---------------------------------------------------------------------------------------
 
+// countStops: statistics about Stop in the middle of a history
+func countStops(ctx *core.Ctx, pre string, ops []c15Op) {
+	first := -1
+	for i, o := range ops {
+		if o.Op == "stop" {
+			first = i
+			break
+		}
+	}
+	if first < 0 {
+		return
+	}
+	ctx.Sink.Count(pre + "/stop_in_the_middle")
+	setAfter, getAfter := false, false
+	for _, o := range ops[first+1:] {
+		setAfter = setAfter || (o.Op == "set" && o.TTL > 0)
+		getAfter = getAfter || (setAfter && o.Op == "get")
+	}
+	if getAfter {
+		ctx.Sink.Count(pre + "/set_then_get_after_stop")
+	}
+}
+
 func c15RunSeq(ctx *core.Ctx, in c15Input) {
 	clk := newClock(in.Mono)
 	c := ttlcache.VerifNewCache[int64](ttlcache.CacheOptions{
@@ -397,6 +447,7 @@ func c15RunSeq(ctx *core.Ctx, in c15Input) {
 		obs[i] = apply(c, clk, in.KeySet, o)
 	}
 	returned, exited := stop(c)
+	exited = exited && !anyAlive(obs)
 	hits, misses, expMiss := count(ctx, in, in.Ops, obs)
 	cs := hx.Case{Kind: "seq", Input: hx.MustJSON(in), Facts: map[string]any{"maxttl": in.MaxTTL}}
 	cs.Class = classOf("seq", in.MaxTTL, in.Ops)
@@ -412,6 +463,7 @@ func c15RunSeq(ctx *core.Ctx, in c15Input) {
 	if in.Mono {
 		ctx.Sink.Count("seq/clock_with_monotonic_reading")
 	}
+	countStops(ctx, "seq", in.Ops)
 	ctx.Sink.Add(cs)
 }
 
@@ -468,6 +520,7 @@ func c15RunConc(ctx *core.Ctx, in c15Input) {
 		mu.Unlock()
 	}
 	returned, exited := stop(c)
+	exited = exited && !anyAlive(obs)
 	hits, misses, _ := count(ctx, in, lin, obs)
 	cs := hx.Case{Kind: "conc", Input: hx.MustJSON(in), Facts: map[string]any{"maxttl": in.MaxTTL}}
 	cs.Class = classOf(fmt.Sprintf("conc/g%d", len(in.Threads)), in.MaxTTL, lin)
@@ -478,6 +531,7 @@ func c15RunConc(ctx *core.Ctx, in c15Input) {
 	ctx.Sink.Count("kind=conc")
 	ctx.Sink.Count(fmt.Sprintf("conc/keyset=%d", in.KeySet))
 	ctx.Sink.Count(fmt.Sprintf("conc/goroutines=%d", len(in.Threads)))
+	countStops(ctx, "conc", lin)
 	ctx.Sink.Add(cs)
 }
 
@@ -1085,6 +1139,17 @@ func genThread(r *hx.Rand, n int, maxttl int64, vbase int64) []c15Op {
 }
 
 // genKeySet: the plain keys one time in four, else one of the unusual key sets.
+// insertStop puts a Stop at a random position that is not the very end.
+func insertStop(r *hx.Rand, ops []c15Op) []c15Op {
+	if len(ops) < 2 {
+		return ops
+	}
+	p := r.Intn(len(ops) - 1)
+	out := append([]c15Op{}, ops[:p]...)
+	out = append(out, c15Op{Op: "stop"})
+	return append(out, ops[p:]...)
+}
+
 func genKeySet(r *hx.Rand) int {
 	if r.Chance(1, 4) {
 		return 0
@@ -1158,6 +1223,38 @@ func c15Gen(ctx *core.Ctx) {
 			}
 		}
 	}
+	// (e) life cycle: Stop in the middle, then the cache is used as before: overwrite with a shorter /
+	//     longer TTL, read at the new expiry -1/0/+1 ns, Delete, Set again, Cleanup, Reset - with the Stop
+	//     before the first Set / between the two Sets / twice / absent (same history, for contrast)
+	for _, maxttl := range []int64{0, 2} {
+		for _, t2 := range []int64{1, 7} {
+			for _, where := range []string{"none", "first", "between", "twice"} {
+				for off := int64(-1); off <= 1; off++ {
+					e2 := t2
+					if maxttl > 0 && e2 > maxttl {
+						e2 = maxttl
+					}
+					var ops []c15Op
+					if where == "first" {
+						ops = append(ops, c15Op{Op: "stop"})
+					}
+					ops = append(ops, c15Op{Op: "set", K: 0, V: 40, TTL: 5}, c15Op{Op: "set", K: 1, V: 41, TTL: 5}, c15Op{Op: "get", K: 0})
+					if where == "between" || where == "twice" {
+						ops = append(ops, c15Op{Op: "stop"})
+					}
+					if where == "twice" {
+						ops = append(ops, c15Op{Op: "get", K: 0}, c15Op{Op: "stop"})
+					}
+					ops = append(ops, c15Op{Op: "set", K: 0, V: 42, TTL: t2}, c15Op{Op: "get", K: 0}, c15Op{Op: "set", K: 2, V: 43, TTL: 1},
+						c15Op{Op: "get", K: 2}, c15Op{Op: "adv", D: e2*secondNs + off}, c15Op{Op: "get", K: 0}, c15Op{Op: "get", K: 1},
+						c15Op{Op: "get", K: 2}, c15Op{Op: "cleanup"}, c15Op{Op: "keys"}, c15Op{Op: "del", K: 1}, c15Op{Op: "get", K: 1},
+						c15Op{Op: "set", K: 1, V: 44, TTL: 3}, c15Op{Op: "get", K: 1}, c15Op{Op: "reset"}, c15Op{Op: "keys"}, c15Op{Op: "get", K: 1},
+						c15Op{Op: "set", K: 3, V: 45, TTL: 1}, c15Op{Op: "get", K: 3})
+					c15Run(ctx, c15Input{Kind: "seq", KeySet: genKeySet(r), MaxTTL: maxttl, Ops: ops, Tag: "lifecycle", Mono: r.Chance(1, 4)})
+				}
+			}
+		}
+	}
 	// --- overlapping Stop calls ----------------------------------------------------------
 	// 1..4 callers x cleaner parked inside a Cleanup pass / idle x all at once / one after the
 	// other x empty / filled map (some entries expired by the tick that starts the pass)
@@ -1203,6 +1300,19 @@ func c15Gen(ctx *core.Ctx) {
 			}
 		}
 	}
+	// a Stop that gives up waiting after a grace period: the pass stays parked for longer than the
+	// usual grace periods after the callers are parked (not a judgement: a Stop seen back meanwhile is a
+	// fact, on the unchanged code they simply stay parked); quick covers graces up to ~2.3 s, thorough ~30 s
+	lingers := []int{2600}
+	if ctx.Thorough {
+		lingers = []int{2600, 5500, 11000, 31000}
+	}
+	for i, ms := range lingers {
+		in := c15Input{Kind: "stops", KeySet: genKeySet(r), Callers: 1 + i%2, Hold: true, Staggered: true,
+			Interval: 2 * secondNs, LingerMs: ms,
+			Ops: []c15Op{{Op: "set", K: 0, V: 600, TTL: 1}, {Op: "set", K: 1, V: 601, TTL: 1}, {Op: "set", K: 2, V: 602, TTL: 30}}}
+		c15Run(ctx, in)
+	}
 	// --- Set racing a Cleanup's bulk delete, then Reset -------------------------------------
 	nrr, rounds2 := 8, 40000
 	if ctx.Thorough {
@@ -1229,6 +1339,12 @@ func c15Gen(ctx *core.Ctx) {
 		maxttl := maxTTLs[r.Intn(len(maxTTLs))]
 		in := c15Input{Kind: "seq", KeySet: genKeySet(r), MaxTTL: maxttl, Mono: r.Chance(1, 5), Tag: "random",
 			Ops: genSeq(r, r.Range(lo, hi), maxttl, 100)}
+		if r.Chance(1, 3) { // Stop somewhere in the middle (sometimes twice): the cache stays in use
+			in.Ops = insertStop(r, in.Ops)
+			if r.Chance(1, 4) {
+				in.Ops = insertStop(r, in.Ops)
+			}
+		}
 		if r.Chance(1, 3) {
 			in.InitialSize = int32(r.Range(1, 64))
 		}
@@ -1246,6 +1362,10 @@ func c15Gen(ctx *core.Ctx) {
 			Interval: int64(r.Range(1, 4)) * secondNs / 2}
 		for t := 0; t < g; t++ {
 			in.Threads = append(in.Threads, genThread(r, r.Range(plo, phi), maxttl, int64(t+1)*1000000))
+		}
+		if r.Chance(1, 4) { // one goroutine Stops the cache somewhere in the middle; everybody goes on using it
+			t := r.Intn(g)
+			in.Threads[t] = insertStop(r, in.Threads[t])
 		}
 		c15Run(ctx, in)
 	}
